@@ -358,7 +358,8 @@ class CSSSerializer:
             return actual
 
     def _linenumnbers(self, text):
-        if self.prefs.lineNumbers:
+        if self.prefs.lineNumbers and self.prefs.lineSeparator:
+            # without a line separator there are no lines to number
             pad = len(str(text.count(self.prefs.lineSeparator) + 1))
             out = []
             for i, line in enumerate(text.split(self.prefs.lineSeparator)):
